@@ -122,6 +122,16 @@ impl Out {
         }
         let imp = format!("c={} p={} bad={}", c as u8, p as u8, first_bad(ro, g.len0, &g.events).map_or("-".to_string(), |i| format!("{i:x}")));
         let exp = if complete { "complete" } else { "prefix" };
+        // for the violation key: is the first call after the (first) close made by the closing thread?
+        let same_thread = g
+            .events
+            .iter()
+            .position(|e| e.kind == Kind::Close)
+            .and_then(|ci| g.events.get(ci + 1).map(|e| e.tid == g.events[ci].tid));
+        let meta = match same_thread {
+            Some(b) => format!("\"first_call_after_close_by_closing_thread\":{b},{meta}"),
+            None => meta,
+        };
         drop(g);
         self.push(line, imp, format!("{{\"scenario\":\"{scen}\",\"expect\":\"{exp}\",{meta}}}"));
     }
@@ -939,13 +949,16 @@ fn reads_racing_close(rng: &mut Rng, out: &mut Out, trials: usize) {
             let _ = small_txn(&db, k, true);
         }
         let mut hs = vec![];
+        let stop = std::sync::Arc::new(std::sync::atomic::AtomicBool::new(false));
         for i in 0..6u64 {
             let Ok(rt) = db.begin_read() else { continue };
+            let stop = stop.clone();
             hs.push(std::thread::spawn(move || {
                 let _ = catch(|| {
                     if let Ok(tab) = rt.open_table(tdef(0)) {
                         let mut n = 0u64;
-                        while n < 20_000 {
+                        // until the database is gone (reads then fail) or main says stop; bounded anyway
+                        while n < 50_000 && !stop.load(std::sync::atomic::Ordering::Relaxed) {
                             if tab.get(&((n * 7 + i) % 30)).is_err() {
                                 break;
                             }
@@ -958,6 +971,7 @@ fn reads_racing_close(rng: &mut Rng, out: &mut Out, trials: usize) {
         }
         std::thread::sleep(std::time::Duration::from_micros(200 + rng.below(800)));
         let _ = catch(move || drop(db));
+        stop.store(true, std::sync::atomic::Ordering::Relaxed);
         for h in hs {
             let _ = h.join();
         }
@@ -992,7 +1006,7 @@ fn main() {
     faulted_histories(&mut frng, seed, &mut out, n_fault, n_ops);
     read_paused_across_close(&mut out);
     let mut rrng = rng.fork(5);
-    reads_racing_close(&mut rrng, &mut out, if thorough { 120 } else { 12 });
+    reads_racing_close(&mut rrng, &mut out, if thorough { 60 } else { 12 });
 
     let mut f = std::fs::File::create("cases.txt").unwrap();
     for l in &out.cases {
